@@ -1,2 +1,76 @@
-"""Extraction items for translate.py: each function takes the repo path and returns Lean lines."""
-ITEMS = []
+"""Extraction items for translate.py: each function takes the repo path and returns Lean lines.
+Pure `ast` walking of the repository's current source text; nothing from the repository is executed."""
+import ast
+import os
+
+
+def _parse(repo, rel):
+    with open(os.path.join(repo, rel)) as f:
+        src = f.read()
+    return ast.parse(src), src
+
+
+def _lean_bool(b):
+    return "true" if b else "false"
+
+
+def _is_attr(node, base, attr):
+    return (isinstance(node, ast.Attribute) and node.attr == attr and isinstance(node.value, ast.Name)
+            and node.value.id == base)
+
+
+def lock_discipline(repo):
+    """C07: the lock discipline of Av._get_level / _ensure_level (perm_sets/permset.py)"""
+    tree, _ = _parse(repo, "permuta/perm_sets/permset.py")
+    av = next(n for n in tree.body if isinstance(n, ast.ClassDef) and n.name == "Av")
+    # class-level lock shared by all instances
+    shared = any(isinstance(s, ast.Assign) and any(isinstance(t, ast.Name) and t.id == "_CACHE_LOCK" for t in s.targets)
+                 for s in av.body)
+    get_level = next(n for n in av.body if isinstance(n, ast.FunctionDef) and n.name == "_get_level")
+
+    def is_lock_with(w):
+        return isinstance(w, ast.With) and any(
+            _is_attr(i.context_expr, "Av", "_CACHE_LOCK") or _is_attr(i.context_expr, "cls", "_CACHE_LOCK")
+            for i in w.items)
+
+    def calls_ensure(node):
+        return any(isinstance(c, ast.Call) and isinstance(c.func, ast.Attribute) and c.func.attr == "_ensure_level"
+                   for c in ast.walk(node))
+
+    # every call of _ensure_level anywhere in the class must be lexically inside `with Av._CACHE_LOCK`
+    under = True
+    found_call = False
+    for fn in [n for n in av.body if isinstance(n, ast.FunctionDef)]:
+        locked_nodes = set()
+        for w in ast.walk(fn):
+            if is_lock_with(w):
+                for sub in ast.walk(w):
+                    locked_nodes.add(id(sub))
+        for c in ast.walk(fn):
+            if isinstance(c, ast.Call) and isinstance(c.func, ast.Attribute) and c.func.attr == "_ensure_level":
+                found_call = True
+                if id(c) not in locked_nodes:
+                    under = False
+    under = under and found_call
+    # in _get_level: the statement that reads self.cache for the result comes after the `with`
+    read_after = False
+    seen_with = False
+    reads_before = False
+    for st in get_level.body:
+        if is_lock_with(st) and calls_ensure(st):
+            seen_with = True
+            continue
+        reads_cache = any(_is_attr(x, "self", "cache") for x in ast.walk(st))
+        if reads_cache and not seen_with:
+            reads_before = True
+        if isinstance(st, ast.Return) and reads_cache and seen_with:
+            read_after = True
+    read_after = read_after and not reads_before
+    return [
+        "/-- permset.py `Av._get_level`/`_ensure_level`: (every `_ensure_level` call is inside `with Av._CACHE_LOCK`,",
+        "    the result is read from `self.cache` only after that block, the lock is a class attribute) -/",
+        "def lockDiscipline : Bool × Bool × Bool := (%s, %s, %s)" % (_lean_bool(under), _lean_bool(read_after), _lean_bool(shared)),
+    ]
+
+
+ITEMS = [lock_discipline]
